@@ -49,9 +49,9 @@ CHECKS = {
  "C14": dict(tech="generator-model monitor: generated files + bundled corpora read under 9 stream schedules (monitor-owned chunking Read with injected Interrupted), compared record by record",
    text="Runtime monitoring under hostile stream schedules: generated files of all four formats (1..600 records, shuffled / partial symbol columns, optional metadata) and the bundled corpora are read through capacity-1 buffers, 1-byte reads, random short reads and injected interrupts; every record is compared with the generator's model / an independent line parser.",
    note="canonical syntax only (no blank lines between JASPAR records, no '>' inside descriptions); TRANSFAC counts < 2^24", ref="DESIGN.md section 3 C14"),
- "C15": dict(tech="fault-injection monitor: every prefix and single-byte edit of valid files, structural damage, random bytes; panics caught, termination decided on logical steps",
-   text="Runtime monitoring with systematic fault injection: every prefix and single-byte substitution / deletion / insertion of valid files of each format plus structural damage and random bytes are fed to all four readers under catch_unwind and chunked delivery; panics, runaway record streams and end-of-input livelocks are violations.",
-   note="a CPU-only infinite loop would only trip the watchdog (inconclusive)", ref="DESIGN.md section 3 C15"),
+ "C15": dict(tech="fault-injection monitor: every prefix, single-byte edit and multi-byte insertion of valid files, structural damage, special numeric tokens, random bytes; panics caught; termination decided on logical steps (records returned, end-of-input polls, CPU time consumed by the reader call)",
+   text="Runtime monitoring with systematic fault injection: every prefix and single-byte substitution / deletion / insertion of valid files of each format plus structural damage and random bytes are fed to all four readers under catch_unwind and chunked delivery; panics, runaway record streams, end-of-input livelocks and reader calls that burn >= 8 s of CPU on a few-kilobyte input (worker thread, CPU counter read from /proc) are violations.",
+   note="a reader call whose worker thread got no CPU for 10 min is inconclusive, never a violation", ref="DESIGN.md section 3 C15"),
  "C16": dict(tech="online trace checker recomputing the sampler state from the dataset after every step; twin-run determinism check; per forced dispatcher arm",
    text="Runtime monitoring of sampling traces: after construction and after every step the count matrix, background, starts and the iteration's hold-out counts are recomputed from the linear sequences; twin runs must be identical.",
    note="seeds >= 2 in zero-or-one mode and >= 2 sequences (fewer divide by an empty background by construction)", ref="DESIGN.md section 3 C16"),
